@@ -25,12 +25,17 @@ from common import coq_list, coq_z
 
 TAG = "C16_%d" % os.getpid()    # scratch-file prefix in coq/build, unique per process
 THEOREMS = ["C16_refines", "C16_no_lost_update", "C16_fresh_commit_visible", "C16_safe_delete",
-            "C16_child_calls", "C16_safe_delete_gone", "C16_lookup_live", "C16_lookup_missing", "C16_membership", "C16_len", "C16_fault_total",
+            "C16_child_calls", "C16_discard_keeps_other_revisions", "C16_safe_delete_gone", "C16_lookup_live", "C16_lookup_missing", "C16_membership", "C16_len", "C16_fault_total",
             "C16_unquote_quote", "C16_quote_inj", "C16_unquote_transform", "C16_transform_inj",
             "C16_doc_url_inj", "C16_key_agreement", "C16_routing", "C16_reserved_id_refuted", "C16_second_replica_refuted", "C16_example"]
 
 ID_POOL = ["a", "http://x/a b?c#d%e", "é/ü", "x/y z", "p%2Fq", "a+b&c=d", ".", "..", "~t_-", "€", "%", "a\tb",
            "urn:x:y#frag?q=1", "A.b", "?#"]
+# identifiers in string-prefix relation (also after URL quoting): hierarchical IRIs, the usual shape of AAS ids
+ID_FAMILIES = [["https://e.org/sm", "https://e.org/sm/1", "https://e.org/sm?version=2", "https://e.org/sm (copy)",
+                "https://e.org/sm/1/2"],
+               ["a", "a+b&c=d", "a\tb", "ab", "a/"], [".", "..", "..."], ["x", "x%", "x%2F", "x%2Fy"],
+               ["é", "é/ü", "éé"], ["urn:x:y", "urn:x:y#frag?q=1", "urn:x:y:z"]]
 FAULTS = [("status", 401), ("status", 404), ("status", 409), ("status", 412), ("status", 500), ("garbage",),
           ("garbage", "empty"), ("garbage", "truncated"), ("drop",)]     # non-JSON body: text, nothing, half a document
 USER, PASSWORD = "verif", "s3cret"
@@ -159,6 +164,8 @@ def run_sdk(case):
     writer = {}      # id -> who wrote the document's current generation: "ext" (second actor) | "client"
     attached = {}    # object token -> it is a replica of a stored document (added / fetched, not discarded since)
     dirty = {}       # object token -> parts changed locally since the object was last synchronised
+    fetched_in_aborted_iteration = {}   # id -> generation fetched for a replica that died with a failed iteration
+    cached = {}      # id -> token of the replica the store has handed out / been given last for that id
     documented = (KeyError, couchdb.CouchDBConnectionError, couchdb.CouchDBResponseError,
                   couchdb.CouchDBServerError, couchdb.CouchDBConflictError)
     fails = []
@@ -198,6 +205,25 @@ def run_sdk(case):
             return [6, 6]
         return [6, 99]
 
+    def same_replica(o):
+        """the store keeps ONE live replica per document: while the application holds the object it was given (or
+        gave) for an id, a lookup / iteration hands out that very object, refreshed - not a second replica"""
+        t = cached.get(o.id)
+        if t is not None and objs[t] is not o and objs[t].source != "":
+            bad(k, kind, "second-replica-handed-out", "the store handed out a new object for a document whose replica "
+                "it had handed out before and which is still alive and attached (two replicas of one document)")
+
+    def up_to_date(x, pre):
+        """this very object is attached and was last synchronised with the document's current revision"""
+        return pre["server_live"] and pre["source"] != "" and synced.get(tok[id(x)]) == pre["server_gen"]
+
+    def refused(x, what):
+        # whatever the client has (or has lost) in its revision store: nobody has written since this replica was
+        # synchronised, so its commit / safe delete must go through
+        if exc is not None:
+            bad(k, kind, "up-to-date-replica-refused", f"a {what} from an up-to-date replica (nobody wrote the document "
+                f"since this object was last synchronised) was refused with {type(exc).__name__}")
+
     def stale_replica(x, pre):
         return writer.get(x.id) == "ext" and synced.get(tok[id(x)]) != pre["server_gen"]
 
@@ -205,7 +231,7 @@ def run_sdk(case):
         """another local object attached to the same document HAS seen the current revision: the SDK keeps one
         revision per URL, not per object (known finding); otherwise nobody in this process has seen it"""
         other = any(o is not x and o.id == x.id and o.source != "" and synced.get(tok[id(o)]) == pre["server_gen"]
-                    for o in objs)
+                    for o in objs) or fetched_in_aborted_iteration.get(x.id) == pre["server_gen"]
         return "-multi-replica" if other else ""
 
     def state_rows(snap):
@@ -359,6 +385,8 @@ def run_sdk(case):
                         expect(None, "the identifier is stored")
                         if exc is None and (result.id != op[1] or val_of(result) != ref[op[1]] or not result.source):
                             bad(k, kind, "stale-or-wrong-object", "lookup returned an object that differs from the stored document")
+                        if exc is None:
+                            same_replica(result)
                     else:
                         expect(KeyError, "the identifier is not stored")
                 elif kind == "modify":
@@ -393,6 +421,10 @@ def run_sdk(case):
                                         "changed and this client had neither changed nor refreshed (stale part of the "
                                         "replica carried over a current revision)")
                                 ref[x.id] = pre["val"]
+                        elif up_to_date(x, pre):
+                            refused(x, "commit")
+                            if exc is None:
+                                ref[x.id] = pre["val"]
                         else:
                             expect(couchdb.CouchDBConflictError, "the replica's revision is not the server's current one")
                             if snap1 != snap0:
@@ -414,16 +446,20 @@ def run_sdk(case):
                         if x.id in ref:
                             expect(None, "the document exists")
                             if exc is None:
-                                del ref[x.id]
+                                ref.pop(x.id, None)
                         else:
                             expect(KeyError, "the document does not exist")
+                    elif up_to_date(x, pre) and (pre["client_rev"] is None or gen_of(pre["client_rev"]) != pre["server_gen"]):
+                        refused(x, "safe delete")
+                        if exc is None:
+                            ref.pop(x.id, None)
                     elif pre["client_rev"] is None:
                         expect(couchdb.CouchDBConflictError, "safe delete without a known revision")
                     elif not pre["server_live"]:
                         expect((couchdb.CouchDBConflictError, KeyError), "safe delete of a document that is already gone")
                     elif gen_of(pre["client_rev"]) == pre["server_gen"] and stale_replica(x, pre):
                         if exc is None:
-                            del ref[x.id]
+                            ref.pop(x.id, None)
                             bad(k, kind, "stale-replica-accepted" + multi(x, pre),
                                 "a safe delete from a replica that was last synchronised before the second actor's "
                                 "write was accepted and removed that write (lost update)")
@@ -432,7 +468,7 @@ def run_sdk(case):
                     elif gen_of(pre["client_rev"]) == pre["server_gen"]:
                         expect(None, "the replica's revision is the server's current one")
                         if exc is None:
-                            del ref[x.id]
+                            ref.pop(x.id, None)
                     else:
                         expect(couchdb.CouchDBConflictError, "the replica's revision is not the server's current one")
                         if snap1 != snap0:
@@ -452,6 +488,8 @@ def run_sdk(case):
                         got = sorted((o.id, val_of(o)) for o in result)
                         if got != sorted(ref.items()) or len({id(o) for o in result}) != len(result):
                             bad(k, kind, "iteration", "iteration does not yield each stored document exactly once")
+                        for o in result:
+                            same_replica(o)
             # after a successful add / lookup / update() / commit the replica is up to date: the revision
             # recorded for its document is the server's current one
             if exc is None and not hit and okind in ("add", "get", "update", "commit"):
@@ -487,20 +525,25 @@ def run_sdk(case):
                 if kind == "get":
                     synced[tok[id(result)]] = gen_now(result.id)
                     attached[tok[id(result)]] = True
+                    cached[result.id] = tok[id(result)]
                 if kind == "iter":
                     for o in result:
                         synced[tok[id(o)]] = gen_now(o.id)
                         attached[tok[id(o)]] = True
+                        cached[o.id] = tok[id(o)]
                 if okind in ("add", "commit", "discard") and snap1 != snap0:
                     writer[x.id] = "client"
                 if kind == "add":
                     attached[tok[id(x)]] = True
+                    cached[x.id] = tok[id(x)]
                 if kind == "discard":
                     attached[tok[id(x)]] = False
+                    cached.pop(x.id, None)
             elif kind == "iter":
                 # a failed iteration has refreshed the cached replicas of the rows fetched so far
                 for i in revs1:
                     if revs1[i] != revs0[i] and revs1[i]:
+                        fetched_in_aborted_iteration[i] = gen_of(revs1[i])
                         for o in objs:
                             if o.id == i and o.source != "":
                                 synced[tok[id(o)]] = gen_of(revs1[i])
@@ -557,7 +600,12 @@ REQ_COUNT = {"add": 1, "get": 1, "commit": 1, "update": 1, "updatec": 1, "commit
 
 def gen_case(rng, maxlen):
     nid = rng.randint(1, 3)
-    idpool = rng.sample(ID_POOL, nid)
+    if nid > 1 and rng.random() < .35:
+        fam = rng.choice(ID_FAMILIES)
+        nid = min(nid, len(fam))
+        idpool = rng.sample(fam, nid)
+    else:
+        idpool = rng.sample(ID_POOL, nid)
     nobj = rng.randint(nid, nid + 2)
     pool = [[i, j + 1] for j, i in enumerate(idpool)]
     while len(pool) < nobj:
@@ -611,6 +659,22 @@ def gen_scenario(rng):
     if rng.random() < .4:
         ops.append([["get", a], None])
     v = 20
+    if rng.random() < .15:
+        # (6) identifiers in prefix relation: discarding one document must not touch what the client knows about the
+        #     others - their up-to-date replicas stay committable / safely deletable
+        fam = rng.choice(ID_FAMILIES)
+        short, long1, long2 = fam[0], *rng.sample(fam[1:], 2)
+        if rng.random() < .25:
+            short, long1 = long1, short
+        pool = [[short, 1], [long1, 2], [long2, 3]]
+        ops = [[["add", t], None] for t in rng.sample([0, 1, 2], 3)]
+        if rng.random() < .4:
+            ops += [[["extput", long1, v, rng.randrange(2)], None], [rng.choice([["update", 1], ["get", long1]]), None]]
+        ops.append([["discard", 0, rng.randrange(2)], None])
+        ops.append([["modify", 1, v + 1, 0], None])
+        ops.append([rng.choice([["commit", 1], ["commitc", 1, 0], ["discard", 1, 1]]), None])
+        ops += [[["get", long1], None], [rng.choice([["discard", 2, 1], ["commit", 2]]), None], [["len"], None], [["iter"], None]]
+        return {"pool": pool, "ops": ops}
     r3 = rng.random()
     if r3 < .18:
         # (4) a long life of ONE document (well beyond ten revisions: CouchDB revisions are "<generation>-<hash>",
